@@ -94,6 +94,25 @@ pub fn gen_case(rng: &mut Rng, corpus: &[(String, Vec<u8>)], idx: usize) -> CliC
             0 => vec![],
             1 => b"plain ascii content, nothing special here.\n".to_vec(),
             2 => random_bytes(rng, 64),
+            4 => {
+                // a legacy multi-byte text that ends inside a character, or has one damaged byte: no strict decoding
+                // in its own code page exists, so whatever is written must not pretend there is one
+                let (name, enc) = *rng.pick(&[("tradchinese", "big5"), ("chinese", "gbk"), ("korean", "euc-kr"), ("japanese", "shift_jis"), ("japanese", "euc-jp"), ("chinese", "gb18030")]);
+                let t = TEXTS.iter().find(|(n, _)| *n == name).map(|x| x.1).unwrap_or(TEXTS[0].1);
+                let k = rng.range(60, 900);
+                let text = stretch(rng, t, k);
+                let mut b = enc_bytes(&text, enc).unwrap_or_else(|| text.into_bytes());
+                while b.last().map_or(false, |x| *x < 0x80) {
+                    b.pop();
+                }
+                if rng.chance(3, 4) {
+                    b.pop(); // cut inside the last (two-byte) character
+                } else if b.len() > 8 {
+                    let i = rng.range(2, b.len() - 2);
+                    b[i] = 0xff;
+                }
+                b
+            }
             3 => b"GIF89a\x01\x00\x01\x00\x80\x00\x00\xff\xff\xff\x00\x00\x00!\xf9\x04\x01\x00\x00\x00\x00,\x00\x00\x00\x00\x01\x00\x01\x00\x00\x02\x02D\x01\x00;".to_vec(),
             _ => {
                 let mut c = structured_case(rng, corpus).bytes;
